@@ -187,6 +187,8 @@ func anchorRule(c *eng.Ctx, fn *ssa.Function, anchorSuffix string, foreign eng.M
 
 func runC03(c *eng.Ctx) {
 	p := c.P
+	compactionStreamFollowsTheOutputFile(c)
+	scannerAdvanceIsAllOrNothing(c)
 	compactionOutputClaimedUntilInstalled(c)
 
 	// ---- 1/2/3. one atomic install; both input levels ---------------------------------------------------------------------
